@@ -1214,6 +1214,19 @@ pub fn run(a: &Args) {
             }
         }
     }
+    // LENGTH-WIDTH BOUNDARIES: an entry whose payload is just beyond 2^16 / 2^24 bytes, between two small ones, in
+    // one file: recovery returns all three, bit-identical (judged directly; the model is not given 16 MiB lines)
+    for len in [(1usize << 16) + 1, (1usize << 24) + 1] {
+        let e = |t: u64, n: usize| { let data: Vec<u8> = (0..n).map(|i| (i % 253) as u8 ^ t as u8).collect(); let checksum = crate::cfg::entry_checksum(t, &data); WalEntry { data, timestamp: t, checksum } };
+        let c = Case { max: 1 << 30, entries: vec![e(1, 3), e(2, len), e(3, 3)], all_deltas: false, pre: vec![] };
+        let (_store, rot, _) = build(&c);
+        let rec = rot.as_ref().and_then(|r| recover(r));
+        let ok = rec.as_ref().map(|r| r.len() == 3 && r.iter().zip(c.entries.iter()).all(|(a, b)| same(a, b))).unwrap_or(false);
+        out.count(&format!("gen:wide-payload:{}", len));
+        if !ok {
+            out.violation("C10:intact:wide-payload", &format!("recovery of an undamaged file holding a {}-byte entry did not return every appended entry", len), json!({"payload_len": len, "recovered": rec.map(|r| r.iter().map(|e| e.timestamp).collect::<Vec<_>>())}));
+        }
+    }
     local_store_extras(&mut out, &a.out.join("c10-local-extras"));
     let local_dir = a.out.join("c10-local-wal");
     for _ in 0..a.n {
